@@ -91,6 +91,10 @@ func (in *Interp) currentModel() Model {
 	if in.model != nil {
 		return in.model
 	}
+	if len(in.pc) == 0 {
+		in.setModel(Model{})
+		return in.model
+	}
 	r, m := in.feasible(in.ts.True)
 	if r == Sat {
 		in.setModel(m)
@@ -402,6 +406,19 @@ func (in *Interp) initExterns() {
 	})
 	sx("GhostLoad", func(in *Interp, _ *frame, _ *ssa.Function, a []value) value {
 		return *a[0].(Ptr).p
+	})
+	// YieldOn(p): a scheduling point that declares "the code up to my next scheduling point touches the
+	// harness monitor p": transitions on different monitors/sync objects commute (sleep sets)
+	sx("YieldOn", func(in *Interp, _ *frame, _ *ssa.Function, a []value) value {
+		var key any
+		switch v := a[0].(Iface).v.(type) {
+		case Ptr:
+			key = v.p
+		default:
+			key = nil
+		}
+		in.sch.syncPoint(&SyncOp{kind: "symx.YieldOn", obj: key, enabled: func() bool { return true }, completed: -1})
+		return nil
 	})
 	sx("Yield", func(in *Interp, _ *frame, _ *ssa.Function, a []value) value {
 		in.sch.yield("symx.Yield")
